@@ -13,16 +13,25 @@ cast table and `get_common_type` as *regenerated from /repo* (Gen/CastTableGen, 
 Model/FpCodegen (tied to `chibicc -S` by text on every run).  `FpuSpec` is satisfiable (Lemmas/FpToy.lean); the host
 CPU is validated against the same contracts on every run (checklib/C02.py).
 
-Open (kept as `_Statement`, with kernel-checked witnesses in Findings/C02.lean):
-  * `C02_select_Statement`: fails for unsigned long → float at ≥ 2^63 (signed `cvtsi2ssq`) and for floating → unsigned
-    long with integral part ≥ 2^63 (signed truncation); proved outside these regions (`C02_select_partial`), the two
-    branchy cells unsigned long → double / long double at ≥ 2^63 separately (`C02_u64f64`, `C02_u64f80_machine`).
-  * floating constants: `C02_const_*` show the immediates are the datum of `(T)fval` where `fval` is the long double
-    `strtold` returned; that this is the *correctly rounded* value of the spelling fails (double rounding).
+Three theorems at the end (`C02_ieee_*`) mention no `FpuSpec` at all: they are about the IEEE-754 / x87 bit layouts themselves.
+
+Nothing is kept as a `_Statement` any more.  The three defects that made `C02_select_Statement` and `C02_const_Statement`
+false (unsigned long → float at ≥ 2^63 through the signed `cvtsi2ssq`; floating → unsigned long at ≥ 2^63 through the
+signed truncations; constants rounded twice through `strtold`) were repaired in /repo; the repaired sequences are in the
+regenerated table and `C02_select` holds for all 144 − 81 = 63 cells with a floating side and **all** operand values,
+`C02_const_literal` / `C02_const_rounded` for every spelling.  Witnesses that the *old* formulas were wrong are kept in
+Findings/C02.lean, marked repaired.
+
+One hypothesis is not a region but the ABI: the two cells that do x87 *arithmetic* (unsigned long ↔ long double at ≥ 2^63:
+`fadds` of 2^64, `fsub` of 2^63) are exact only when the x87 precision-control field selects double extended precision,
+which the psABI prescribes (control word 0x37f at process start, preserved across calls); `C02_select` asks for it in
+exactly those two cells.
 -/
 import ChibiVerif.Lemmas.FpOpLemmas
 import ChibiVerif.Lemmas.FpToy
 import ChibiVerif.Lemmas.FpRoundLemmas
+import ChibiVerif.Lemmas.FpLiteralLemmas
+import ChibiVerif.Lemmas.FpIeeeLemmas
 
 namespace ChibiVerif.Props.C02
 open ChibiVerif.Fp ChibiVerif.Asm ChibiVerif.X86 ChibiVerif.Spec.Fpu ChibiVerif.FpCodegen ChibiVerif.Spec.FpC11
@@ -199,38 +208,53 @@ theorem C02_truth (F : FpuSpec) (s : FState) (l : String) :
 
 /-! ## conversions -/
 
-/-- the full statement: for **every** pair of arithmetic types with a floating side, every operand value and every machine
-    state, the instructions `cast(from, to)` prints (cell of the generated cast table, or the `_Bool` sequence) turn a
-    representation of `x` into a representation of the C11 conversion of `x` (when that is defined), restore the x87
-    control word, leave the x87 stack below the operand and %rsp unchanged.  **It is false** (Findings/C02.lean). -/
-def C02_select_Statement : Prop :=
-  ∀ (F : FpuSpec) (frm to : ATy) (s : FState) (x y : AVal),
-    (frm.isFp = true ∨ to.isFp = true) → Holds frm s x → convert F s.cw to x = some y →
-    ∃ s', Fp.run F (castSeq frm to) s = some s' ∧ Holds to s' y ∧ s'.cw = s.cw ∧ stBelow to s' = stBelow frm s ∧
-      s'.x.get .rsp = s.x.get .rsp
-
-/-- **C02 (selection).**  `C02_select_Statement` outside the regions `inKnownRegion` (unsigned long → floating at ≥ 2^63;
-    floating → unsigned long with integral part ≥ 2^63): 63 cells × all values.  E.g. double → unsigned int goes through
-    `cvttsd2siq` and the low 32 bits and is right for every x with 0 ≤ trunc x < 2^32; signed char / short targets are
-    re-extended from the right width; int → long double goes through a 4-byte slot read by `fildl`, unsigned int is
-    zero-extended first and read by `fildll`; long double → integer stores with `fistps/l/q` of the right width under a
-    control word with RC = 11b and reloads with the right extension; `_Bool` targets test against zero with NaN true. -/
-theorem C02_select_partial (F : FpuSpec) (frm to : ATy) (s : FState) (x y : AVal)
+/-- **C02 (selection), full strength.**  For **every** pair of arithmetic types with a floating side (63 cells of the cast
+    table regenerated from codegen.c, or the `_Bool` sequence), every operand value and every machine state, the instructions
+    `cast(from, to)` prints turn a representation of `x` into a representation of the C11 conversion of `x` (whenever that is
+    defined), restore the x87 control word, leave the x87 stack below the operand and %rsp unchanged.
+    E.g. double → unsigned int goes through `cvttsd2siq` and the low 32 bits and is right for every x with 0 ≤ trunc x < 2^32;
+    signed char / short targets are re-extended from the right width; int → long double goes through a 4-byte slot read by
+    `fildl`, unsigned int is zero-extended first and read by `fildll`; long double → integer stores with `fistps/l/q` of the
+    right width under a control word with RC = 11b and reloads with the right extension; `_Bool` targets test against zero
+    with NaN true; **unsigned long → float / double** is correctly rounded for all 2^64 values (from 2^63 on: halve with the
+    lost bit or-ed back in, convert, double); **float / double / long double → unsigned long** is the exact truncation for
+    every x with 0 ≤ trunc x < 2^64 (from 2^63 on: compare with 2^63, subtract it exactly, truncate signed, complement bit 63).
+    `hpc`: the two cells that do x87 arithmetic (unsigned long ↔ long double) need the ABI's x87 precision (PC = 11b). -/
+theorem C02_select (F : FpuSpec) (frm to : ATy) (s : FState) (x y : AVal)
     (hfp : frm.isFp = true ∨ to.isFp = true) (hh : Holds frm s x) (hc : convert F s.cw to x = some y)
-    (hreg : inKnownRegion F frm to x = false) :
+    (hpc : usesX87Arith frm to = true → pc s.cw = 3#2) :
     ∃ s', Fp.run F (castSeq frm to) s = some s' ∧ Holds to s' y ∧ s'.cw = s.cw ∧ stBelow to s' = stBelow frm s ∧
       s'.x.get .rsp = s.x.get .rsp :=
-  select_partial F frm to s x y hfp hh hc hreg
+  select F frm to s x y hfp hh hc hpc
 
 /-- non-vacuity: the contract is satisfiable, and on the toy FPU the hypotheses hold for (double) of the unsigned int
     4000000000 (above 2^31: the zero extension matters) sitting in %eax with garbage above -/
 example : ∃ (F : FpuSpec) (s : FState) (y : AVal),
     Holds (.int .u32) s (.int 4000000000) ∧ convert F s.cw .f64 (.int 4000000000) = some y ∧
-    inKnownRegion F (.int .u32) .f64 (.int 4000000000) = false :=
+    (usesX87Arith (.int .u32) .f64 = true → pc s.cw = 3#2) :=
   ⟨Toy.toy, ⟨{ regs := fun _ => 0xdeadbeefee6b2800#64, mem := fun _ => 0 }, 0, 0, [], 0x37f#16⟩, _,
-    by simp [Holds, RInt, ITy.inRange, ITy.min, ITy.max, ITy.signed, ITy.bits, State.get], rfl, rfl⟩
+    by simp [Holds, RInt, ITy.inRange, ITy.min, ITy.max, ITy.signed, ITy.bits, State.get], rfl, by decide⟩
 
-/-! ## the two branchy cells at ≥ 2^63 -/
+/-- non-vacuity in the formerly excluded regions: (float) of ULONG_MAX; (unsigned long) of the double 3·2^62 ≥ 2^63;
+    (unsigned long) of the long double 2^63 under the ABI control word 0x37f -/
+example : ∃ (F : FpuSpec) (s : FState) (y : AVal),
+    Holds (.int .u64) s (.int 18446744073709551615) ∧ convert F s.cw .f32 (.int 18446744073709551615) = some y ∧
+    (usesX87Arith (.int .u64) .f32 = true → pc s.cw = 3#2) :=
+  ⟨Toy.toy, ⟨{ regs := fun _ => 0xffffffffffffffff#64, mem := fun _ => 0 }, 0, 0, [], 0x37f#16⟩, _,
+    by simp [Holds, RInt, ITy.inRange, ITy.min, ITy.max, ITy.signed, ITy.bits, State.get], rfl, by decide⟩
+
+example : ∃ (F : FpuSpec) (s : FState) (b : BitVec 64),
+    Holds .f64 s (.f64 b) ∧ convert F s.cw (.int .u64) (.f64 b) = some (.int 13835058055282163712) ∧
+    (usesX87Arith .f64 (.int .u64) = true → pc s.cw = 3#2) :=
+  ⟨Toy.toy, ⟨{ regs := fun _ => 0, mem := fun _ => 0 }, BitVec.ofNat 64 (Toy.enc 57 false 3 62), 0, [], 0x37f#16⟩, _, rfl,
+    by decide, by decide⟩
+
+example : ∃ (F : FpuSpec) (s : FState) (b : BitVec 80),
+    Holds .f80 s (.f80 b) ∧ convert F s.cw (.int .u64) (.f80 b) = some (.int 9223372036854775808) ∧
+    (usesX87Arith .f80 (.int .u64) = true → pc s.cw = 3#2) :=
+  ⟨Toy.toy, ⟨{ regs := fun _ => 0, mem := fun _ => 0 }, 0, 0, [Toy.T80], 0x37f#16⟩, _, ⟨[], rfl⟩, by decide, by decide⟩
+
+/-! ## unsigned long at ≥ 2^63, spelled out -/
 
 /-- **C02 (unsigned long → long double, top bit set), machine level.**  `fildq` reads the pattern as the negative number
     v − 2^64; the float constant 0x5F800000 (2^64) is then added in extended precision. -/
@@ -251,64 +275,85 @@ theorem C02_u64f80_machine (F : FpuSpec) (s : FState) (h : (s.x.get .rax).msb = 
 example : ∃ s : FState, (s.x.get .rax).msb = true :=
   ⟨⟨{ regs := fun _ => 0xffffffffffffffff#64, mem := fun _ => 0 }, 0, 0, [], 0x37f#16⟩, by decide⟩
 
-/-- **C02 (unsigned long → double, all 2^64 values).**  On every FPU that meets the contract and on which adding a double to
-    itself is exact (`hdbl`: the sum of the double nearest to an integer |k| < 2^63 with itself denotes 2·round₅₃(k); true of
-    IEC 60559 addition, there is no overflow), the branchy cell `u64f64` — `test; js`, and for values ≥ 2^63: halve with the
-    lost bit or-ed back in, `cvtsi2sd`, `addsd %xmm0, %xmm0` — leaves a double that denotes round-to-nearest-even of the
-    *unsigned* value to 53 significant bits, which is what the C11 result `F.ofInt64 v` denotes. -/
-theorem C02_u64f64 (F : FpuSpec)
-    (hdbl : ∀ k : Int, k.natAbs < 2 ^ 63 → (F.val64 (F.addsd (F.ofInt64 k) (F.ofInt64 k))).toInt? = some (2 * roundInt 53 k))
-    (s : FState) (v : Int) (hh : Holds (.int .u64) s (.int v)) :
-    ∃ s', Fp.run F (castSeq (.int .u64) .f64) s = some s' ∧
+/-- **C02 (unsigned long → long double, all 2^64 values).**  Under the ABI's x87 precision the cell `u64f80` pushes exactly the
+    datum of the unsigned value (every 64-bit integer is a long double). -/
+theorem C02_u64f80 (F : FpuSpec) (s : FState) (v : Int) (hh : Holds (.int .u64) s (.int v)) (hpc : pc s.cw = 3#2) :
+    ∃ s', Fp.run F (castSeq (.int .u64) .f80) s = some s' ∧ s'.st = F.ofInt80 v :: s.st ∧
+      (F.val80 (F.ofInt80 v)).toInt? = some v ∧ s'.cw = s.cw ∧ s'.x.get .rsp = s.x.get .rsp := by
+  have hr : ITy.u64.inRange v := hh.1
+  have hv0 : 0 ≤ v ∧ v < 18446744073709551616 := by
+    simp [ITy.inRange, ITy.min, ITy.max, ITy.signed, ITy.bits] at hr; omega
+  obtain ⟨s', hrun, hst, hcw, hrsp⟩ := sel_u64_f80 F s v hh (fun _ => hpc)
+  refine ⟨s', hrun, hst, ?_, hcw, hrsp⟩
+  rw [F.ofInt80_val v (by omega), Toy.roundInt_small 64 v (by omega)]
+
+/-- non-vacuity: ULONG_MAX under the control word 0x37f -/
+example : ∃ s : FState, Holds (.int .u64) s (.int 18446744073709551615) ∧ pc s.cw = 3#2 :=
+  ⟨⟨{ regs := fun _ => 0xffffffffffffffff#64, mem := fun _ => 0 }, 0, 0, [], 0x37f#16⟩,
+    by simp [Holds, RInt, ITy.inRange, ITy.min, ITy.max, ITy.signed, ITy.bits, State.get], by decide⟩
+
+/-- **C02 (unsigned long → double, all 2^64 values).**  On every FPU that meets the contract the branchy cell `u64f64` —
+    `test; js`, and for values ≥ 2^63: halve with the lost bit or-ed back in, `cvtsi2sd`, `addsd %xmm0, %xmm0` — leaves exactly
+    the datum of the C11 result `F.ofInt64 v`, which denotes round-to-nearest-even of the *unsigned* value to 53 significant
+    bits.  (Earlier versions needed "x + x is exact" as a hypothesis; it is now the contract `addsd_double`.) -/
+theorem C02_u64f64 (F : FpuSpec) (s : FState) (v : Int) (hh : Holds (.int .u64) s (.int v)) :
+    ∃ s', Fp.run F (castSeq (.int .u64) .f64) s = some s' ∧ s'.xmm0 = F.ofInt64 v ∧
       (F.val64 s'.xmm0).toInt? = some (roundInt 53 v) ∧ (F.val64 s'.xmm0).toInt? = (F.val64 (F.ofInt64 v)).toInt? ∧
       s'.st = s.st ∧ s'.cw = s.cw ∧ s'.x.get .rsp = s.x.get .rsp := by
   have hr : ITy.u64.inRange v := hh.1
   have hv0 : 0 ≤ v ∧ v < 18446744073709551616 := by
     simp [ITy.inRange, ITy.min, ITy.max, ITy.signed, ITy.bits] at hr; omega
-  have hspec : (F.val64 (F.ofInt64 v)).toInt? = some (roundInt 53 v) := F.ofInt64_val v (by omega)
-  by_cases hlt : v < 9223372036854775808
-  · obtain ⟨s', hrun, hx, hst, hcw, hrsp⟩ := sel_u64_f64 F s v hh hlt
-    exact ⟨s', hrun, by rw [hx, hspec], by rw [hx], hst, hcw, hrsp⟩
-  · have hnat : ((s.x.get .rax).toNat : Int) = v := by
-      have := hh.2; simp only at this; omega
-    have hmsb : (s.x.get .rax).msb = true := by
-      rw [BitVec.msb_eq_decide]; simp; omega
-    obtain ⟨s', hrun, hx, hst, hcw, hrsp⟩ := eff_u64f64_neg F s hmsb
-    have hn1 : 2 ^ 63 ≤ (s.x.get .rax).toNat := by omega
-    have hn2 : (s.x.get .rax).toNat < 2 ^ 64 := (s.x.get .rax).isLt
-    have hh' := halveSticky_lt _ hn1 hn2
-    have hk : ((s.x.get .rax) >>> 1 ||| (s.x.get .rax) &&& 1#64).toInt = (halveSticky (s.x.get .rax).toNat : Int) := by
-      rw [BitVec.toInt_eq_toNat_cond, halve_bv]
-      split <;> omega
-    have hval : (F.val64 s'.xmm0).toInt? = some (roundInt 53 v) := by
-      rw [hx, F.cvtsi2sd64_spec, hk, hdbl _ (by omega)]
-      have e1 : roundInt 53 (halveSticky (s.x.get .rax).toNat : Int) = (roundNat 53 (halveSticky (s.x.get .rax).toNat) : Int) := by
-        simp [roundInt]; intro h; omega
-      have e2 : roundInt 53 v = (roundNat 53 (s.x.get .rax).toNat : Int) := by
-        rw [← hnat]; simp [roundInt]; intro h; omega
-      rw [e1, e2, round_halve _ hn1 hn2]
-      simp
-    exact ⟨s', hrun, hval, by rw [hval, hspec], hst, hcw, hrsp⟩
+  obtain ⟨s', hrun, hx, hst, hcw, hrsp⟩ := sel_u64_f64 F s v hh
+  exact ⟨s', hrun, hx, by rw [hx]; exact F.ofInt64_val v (by omega), by rw [hx], hst, hcw, hrsp⟩
+
+/-- **C02 (unsigned long → float, all 2^64 values).**  The repaired cell `u64f32` (the same halving sequence with `cvtsi2ss` /
+    `addss`) leaves exactly the datum of the C11 result, which denotes the unsigned value rounded to 24 significant bits. -/
+theorem C02_u64f32 (F : FpuSpec) (s : FState) (v : Int) (hh : Holds (.int .u64) s (.int v)) :
+    ∃ s', Fp.run F (castSeq (.int .u64) .f32) s = some s' ∧ s'.xmm0.setWidth 32 = F.ofInt32 v ∧
+      (F.val32 (s'.xmm0.setWidth 32)).toInt? = some (roundInt 24 v) ∧
+      s'.st = s.st ∧ s'.cw = s.cw ∧ s'.x.get .rsp = s.x.get .rsp := by
+  have hr : ITy.u64.inRange v := hh.1
+  have hv0 : 0 ≤ v ∧ v < 18446744073709551616 := by
+    simp [ITy.inRange, ITy.min, ITy.max, ITy.signed, ITy.bits] at hr; omega
+  obtain ⟨s', hrun, hx, hst, hcw, hrsp⟩ := sel_u64_f32 F s v hh
+  exact ⟨s', hrun, hx, by rw [hx]; exact F.ofInt32_val v (by omega), hst, hcw, hrsp⟩
 
 /-- non-vacuity: ULONG_MAX in %rax represents the unsigned long 2^64 − 1 -/
 example : ∃ s : FState, Holds (.int .u64) s (.int 18446744073709551615) :=
   ⟨⟨{ regs := fun _ => 0xffffffffffffffff#64, mem := fun _ => 0 }, 0, 0, [], 0x37f#16⟩,
     by simp [Holds, RInt, ITy.inRange, ITy.min, ITy.max, ITy.signed, ITy.bits, State.get]⟩
 
-/-- non-vacuity: the toy FPU satisfies the doubling hypothesis -/
-example : ∀ k : Int, k.natAbs < 2 ^ 63 →
-    (Toy.toy.val64 (Toy.toy.addsd (Toy.toy.ofInt64 k) (Toy.toy.ofInt64 k))).toInt? = some (2 * roundInt 53 k) := by
-  intro k hk
-  show (Toy.val64 (if Toy.ofInt64 k = Toy.ofInt64 k then Toy.dbl64 (Toy.ofInt64 k) else Toy.ofInt64 k)).toInt? = _
-  rw [if_pos rfl]
-  exact Toy.dbl64_ofInt k (by omega)
+/-- **C02 (floating → unsigned long, every value with 0 ≤ trunc x < 2^64).**  The repaired cells `f32u64`, `f64u64`, `f80u64`
+    leave in %rax the integral part `i` of the operand, also when 2^63 ≤ i. -/
+theorem C02_fp_to_u64 (F : FpuSpec) (s : FState) (i : Int) (hin : ITy.u64.inRange i) :
+    (∀ b, s.xmm0.setWidth 32 = b → (F.val32 b).trunc? = some i →
+      ∃ s', Fp.run F (castSeq .f32 (.int .u64)) s = some s' ∧ ((s'.x.get .rax).toNat : Int) = i ∧ s'.st = s.st ∧ s'.cw = s.cw) ∧
+    (∀ b, s.xmm0 = b → (F.val64 b).trunc? = some i →
+      ∃ s', Fp.run F (castSeq .f64 (.int .u64)) s = some s' ∧ ((s'.x.get .rax).toNat : Int) = i ∧ s'.st = s.st ∧ s'.cw = s.cw) ∧
+    (∀ b rest, s.st = b :: rest → (F.val80 b).trunc? = some i → pc s.cw = 3#2 →
+      ∃ s', Fp.run F (castSeq .f80 (.int .u64)) s = some s' ∧ ((s'.x.get .rax).toNat : Int) = i ∧ s'.st = rest ∧ s'.cw = s.cw) := by
+  have hr : 0 ≤ i ∧ i < 18446744073709551616 := by
+    simp [ITy.inRange, ITy.min, ITy.max, ITy.signed, ITy.bits] at hin; omega
+  refine ⟨?_, ?_, ?_⟩
+  · intro b hb htr
+    obtain ⟨s', h1, h2, h3, h4, _⟩ := sel_f32_u64 F s b hb i htr hin
+    exact ⟨s', h1, by have := h2.2; simp only at this; omega, h3, h4⟩
+  · intro b hb htr
+    obtain ⟨s', h1, h2, h3, h4, _⟩ := sel_f64_u64 F s b hb i htr hin
+    exact ⟨s', h1, by have := h2.2; simp only at this; omega, h3, h4⟩
+  · intro b rest hb htr hpc
+    obtain ⟨s', h1, h2, h3, h4, _⟩ := sel_f80_u64 F s b rest hb i htr hin (fun _ => hpc)
+    exact ⟨s', h1, by have := h2.2; simp only at this; omega, h3, h4⟩
+
+/-- non-vacuity: 3·2^62 ≥ 2^63 is an unsigned long -/
+example : ITy.u64.inRange 13835058055282163712 := by decide
 
 /-! ## floating constants -/
 
-/-- **C02 (constants).**  `ND_NUM` of type float / double / long double whose value is the long double `fval` (what `strtold`
-    returned, as held by the compiler): the immediates printed are the bit pattern of `(float)fval` / `(double)fval` /
-    `fval` (the union punning, with `hostCw` the compiler's own x87 control word), and executing them leaves exactly that
-    datum where a value of the node's type lives — for every `fval`, i.e. the C11 conversion of `fval` to the node's type. -/
+/-- **C02 (constants: code generation).**  `ND_NUM` of type float / double / long double whose value is the long double `fval`
+    (as held by the compiler): the immediates printed are the bit pattern of `(float)fval` / `(double)fval` / `fval` (the union
+    punning, with `hostCw` the compiler's own x87 control word), and executing them leaves exactly that datum where a value of
+    the node's type lives — for every `fval`, i.e. the C11 conversion of `fval` to the node's type. -/
 theorem C02_const (F : FpuSpec) (hostCw : BitVec 16) (fval : BitVec 80) (s : FState) :
     (∃ s' y, convert F hostCw .f32 (.f80 fval) = some y ∧
       Fp.run F (instrsOf (numF32 (F.fst32 hostCw fval))) s = some s' ∧ Holds .f32 s' y ∧ s'.st = s.st ∧ s'.cw = s.cw) ∧
@@ -323,27 +368,116 @@ theorem C02_const (F : FpuSpec) (hostCw : BitVec 16) (fval : BitVec 80) (s : FSt
   · obtain ⟨s', h1, h2, h3, _⟩ := num_f80 F fval s
     exact ⟨s', h1, ⟨s.st, h2⟩, h2, h3⟩
 
-/-- the full statement about constants, for integer-valued spellings n: narrowing what `strtold` returns (n rounded to the
-    64 significant bits of a long double) yields the correctly rounded double / float.  **It is false** (double rounding,
-    Findings/C02.lean); `C02_const` above is the part that holds: the code materialises exactly the narrowed `fval`. -/
-def C02_const_Statement : Prop :=
-  ∀ n : Nat, roundNat 53 (roundNat 64 n) = roundNat 53 n ∧ roundNat 24 (roundNat 64 n) = roundNat 24 n
+open ChibiVerif.FpLiteral ChibiVerif.Gen.FpLiteral in
+/-- **C02 (constants: each suffix reads with the function of its own type).**  Over the suffix ladder of `convert_pp_number`
+    as regenerated from tokenize.c: the `f`/`F` arm keeps `strtof`'s result, the `l`/`L` arm `strtold`'s, the unsuffixed arm
+    `strtod`'s — C11 6.4.4.2p3: the constant is rounded once, to its own type. -/
+theorem C02_const_parser :
+    (∀ a ∈ suffixArms, a.2.2 = ownParser a.2.1) ∧ defaultArm.2 = ownParser defaultArm.1 ∧
+    (suffixArms.map (·.2.1) ++ [defaultArm.1]).Perm [.ty_float, .ty_ldouble, .ty_double] := by decide
 
-/-- … and it does hold for every spelling whose value has at most 64 significant bits (every integer below 2^64,
-    every literal that is exactly a long double): the first rounding is the identity -/
-theorem C02_const_partial (n : Nat) (h : n < 2 ^ 64) :
-    roundNat 53 (roundNat 64 n) = roundNat 53 n ∧ roundNat 24 (roundNat 64 n) = roundNat 24 n := by
-  have hb : bitLen n ≤ 64 := by
-    unfold bitLen
-    split
-    · omega
-    · rename_i h0
-      have := (Nat.log2_lt h0).2 h
-      omega
-  have e : roundNat 64 n = n := by simp [roundNat, roundQS, hb]
-  rw [e]; exact ⟨rfl, rfl⟩
+open ChibiVerif.FpLiteral ChibiVerif.Gen.FpLiteral in
+/-- **C02 (constants: from the spelling to the machine).**  For every pp-number `convert_pp_number` accepts as a floating
+    constant of type `ty` with value `fval`, the instructions `ND_NUM` prints leave — for every compiler-side control word —
+    exactly the datum that libc's function *of that type* returned on the spelling (`strtof` for float, `strtod` for double,
+    `strtold` for long double): the round trip through the compiler's `long double` and the union punning changes no bit.
+    (`hnn`: libc returns no NaN for a pp-number; a pp-number cannot spell one.) -/
+theorem C02_const_literal (F : FpuSpec) (hostCw : BitVec 16) (p : Parsed) (ty : FTy) (fval : BitVec 80) (s : FState)
+    (hconv : convertPpNumberFp F p = .num ty fval)
+    (hnn : (F.val32 p.f32).isNaN = false ∧ (F.val64 p.f64).isNaN = false) :
+    ∃ s', Fp.run F (instrsOf (numLines F hostCw ty fval)) s = some s' ∧ Holds (atyOf ty) s' (datumOf p ty) ∧
+      s'.cw = s.cw ∧ stBelow (atyOf ty) s' = s.st ∧ s'.x.get .rsp = s.x.get .rsp :=
+  literal_datum F hostCw p ty fval s hconv hnn
+
+open ChibiVerif.FpLiteral ChibiVerif.Gen.FpLiteral in
+/-- non-vacuity: on the toy FPU, an unsuffixed spelling of 2^53 + 1 (all three libc results as the contract prescribes)
+    is accepted as a double, an `f`-suffixed one as a float -/
+example : ∃ (p : Parsed) (fval : BitVec 80), convertPpNumberFp Toy.toy p = .num .ty_double fval ∧
+    (Toy.toy.val32 p.f32).isNaN = false ∧ (Toy.toy.val64 p.f64).isNaN = false :=
+  ⟨⟨Toy.ofInt32 9007199254740993, Toy.ofInt64 9007199254740993, Toy.ofInt80 9007199254740993, 0, 0⟩, _, rfl,
+    by decide, by decide⟩
+
+open ChibiVerif.FpLiteral ChibiVerif.Gen.FpLiteral in
+example : ∃ (p : Parsed) (fval : BitVec 80), convertPpNumberFp Toy.toy p = .num .ty_float fval ∧
+    (Toy.toy.val32 p.f32).isNaN = false ∧ (Toy.toy.val64 p.f64).isNaN = false :=
+  ⟨⟨Toy.ofInt32 9007199254740993, Toy.ofInt64 9007199254740993, Toy.ofInt80 9007199254740993, 102, 1⟩, _, rfl,
+    by decide, by decide⟩
+
+open ChibiVerif.FpLiteral ChibiVerif.Gen.FpLiteral in
+/-- **C02 (constants: rounded once).**  Relative to the libc contract `LibcRounds` (each of `strtof`/`strtod`/`strtold` is
+    correctly rounding; trusted, validated by the check): for a spelling with the integer value `n`, the datum the emitted code
+    materialises denotes `n` rounded to nearest-even **once**, to the 24 / 53 / 64 significant bits of the constant's own type.
+    (The old code computed `roundNat 53 (roundNat 64 n)`, which differs: Findings/C02.lean.) -/
+theorem C02_const_rounded (F : FpuSpec) (hostCw : BitVec 16) (n : Nat) (p : Parsed) (hl : LibcRounds F n p)
+    (ty : FTy) (fval : BitVec 80) (s : FState) (hconv : convertPpNumberFp F p = .num ty fval) :
+    ∃ s' d v, Fp.run F (instrsOf (numLines F hostCw ty fval)) s = some s' ∧ Holds (atyOf ty) s' d ∧ valOf F d = some v ∧
+      v.toInt? = some (roundNat (precOf ty) n : Int) := by
+  have hnn : (F.val32 p.f32).isNaN = false ∧ (F.val64 p.f64).isNaN = false := by
+    constructor
+    · have := hl.f32; cases h : F.val32 p.f32 <;> simp_all [Val.toInt?, Val.isNaN]
+    · have := hl.f64; cases h : F.val64 p.f64 <;> simp_all [Val.toInt?, Val.isNaN]
+  obtain ⟨s', hrun, hh, _⟩ := literal_datum F hostCw p ty fval s hconv hnn
+  cases ty with
+  | ty_float => exact ⟨s', _, _, hrun, hh, rfl, hl.f32⟩
+  | ty_double => exact ⟨s', _, _, hrun, hh, rfl, hl.f64⟩
+  | ty_ldouble => exact ⟨s', _, _, hrun, hh, rfl, hl.f80⟩
+
+open ChibiVerif.FpLiteral in
+/-- non-vacuity: the toy libc that rounds correctly satisfies the contract at 2^53 + 1 (inexact in float and in double) -/
+example : LibcRounds Toy.toy 9007199254740993
+    ⟨Toy.ofInt32 ((9007199254740993 : Nat) : Int), Toy.ofInt64 ((9007199254740993 : Nat) : Int),
+     Toy.ofInt80 ((9007199254740993 : Nat) : Int), 0, 0⟩ :=
+  ⟨by rw [← roundInt_nat]; exact Toy.ofInt32_val ((9007199254740993 : Nat) : Int) (by decide),
+   by rw [← roundInt_nat]; exact Toy.ofInt64_val ((9007199254740993 : Nat) : Int) (by decide),
+   by rw [← roundInt_nat]; exact Toy.ofInt80_val ((9007199254740993 : Nat) : Int) (by decide)⟩
+
+/-! ## without an FPU contract: the bit layouts themselves -/
+
+open ChibiVerif.Spec.Fpu.Ieee in
+/-- **C02 (integer ↔ floating, absolute).**  No `FpuSpec` here: `Ieee.decode32/64/80` are the IEEE-754 binary32 / binary64 and x87
+    double-extended layouts, `Ieee.ofInt32/64/80` the encoders whose output the check compares bit for bit with `cvtsi2ss/sd` and
+    `fild` on the host CPU.  For every integer of magnitude ≤ 2^64 the encoded datum decodes to the integer rounded to nearest,
+    ties to even, to 24 / 53 / 64 significant bits — the contracts `ofInt*_val` hold of the real layouts. -/
+theorem C02_ieee_int_roundtrip (n : Int) (h : n.natAbs ≤ 2 ^ 64) :
+    (decode32 (ofInt32 n)).toInt? = some (roundInt 24 n) ∧ (decode64 (ofInt64 n)).toInt? = some (roundInt 53 n) ∧
+    (decode80 (ofInt80 n)).toInt? = some (roundInt 64 n) :=
+  ⟨decode_ofInt32 n h, decode_ofInt64 n h, decode_ofInt80 n h⟩
 
 /-- non-vacuity -/
-example : (16777217 : Nat) < 2 ^ 64 := by decide
+example : (18446744073709551615 : Int).natAbs ≤ 2 ^ 64 := by decide
+
+open ChibiVerif.Spec.Fpu.Ieee in
+/-- **C02 (int → floating is exact when it can be).**  |n| ≤ 2^24: `(float)n` denotes n; |n| ≤ 2^53: `(double)n` denotes n;
+    every 64-bit integer (|n| ≤ 2^64): `(long double)n` denotes n — on the bit layouts, with no assumption about the FPU. -/
+theorem C02_ieee_int_exact (n : Int) :
+    (n.natAbs ≤ 2 ^ 24 → (decode32 (ofInt32 n)).toInt? = some n) ∧
+    (n.natAbs ≤ 2 ^ 53 → (decode64 (ofInt64 n)).toInt? = some n) ∧
+    (n.natAbs ≤ 2 ^ 64 → (decode80 (ofInt80 n)).toInt? = some n) := by
+  have p24 : (2:Nat) ^ 24 ≤ 2 ^ 64 := by decide
+  have p53 : (2:Nat) ^ 53 ≤ 2 ^ 64 := by decide
+  refine ⟨fun h => ?_, fun h => ?_, fun h => ?_⟩
+  · rw [decode_ofInt32 n (by omega), roundInt_exact 24 n (by decide) h]
+  · rw [decode_ofInt64 n (by omega), roundInt_exact 53 n (by decide) h]
+  · rw [decode_ofInt80 n h, roundInt_exact 64 n (by decide) h]
+
+/-- non-vacuity: 2^53 itself, and the first integer that is not a double -/
+example : ((9007199254740992 : Int).natAbs ≤ 2 ^ 53) ∧ ¬ ((9007199254740993 : Int).natAbs ≤ 2 ^ 53) := by decide
+
+open ChibiVerif.Spec.Fpu.Ieee in
+/-- **C02 (floating → int truncation gives the integer back, absolute).**  With `truncTo` the SDM result of `cvtt*2si` / `fistp`
+    (integer part if representable): `(int)(float)n = n` for |n| ≤ 2^24, `(long)(double)n = n` for |n| ≤ 2^53, and
+    `(long)(long double)n = n` for **every** long — from the bit layouts alone. -/
+theorem C02_ieee_trunc_back (n : Int) :
+    (n.natAbs ≤ 2 ^ 24 → truncTo 32 (decode32 (ofInt32 n)) = BitVec.ofInt 32 n) ∧
+    (n.natAbs ≤ 2 ^ 53 → truncTo 64 (decode64 (ofInt64 n)) = BitVec.ofInt 64 n) ∧
+    (-(2 ^ 63 : Int) ≤ n ∧ n < 2 ^ 63 → truncTo 64 (decode80 (ofInt80 n)) = BitVec.ofInt 64 n) := by
+  obtain ⟨h32, h64, h80⟩ := C02_ieee_int_exact n
+  refine ⟨fun h => ?_, fun h => ?_, fun h => ?_⟩
+  · exact truncTo_of_toInt 32 _ n (h32 h) (by simp; omega) (by simp; omega)
+  · exact truncTo_of_toInt 64 _ n (h64 h) (by simp; omega) (by simp; omega)
+  · exact truncTo_of_toInt 64 _ n (h80 (by omega)) (by simp; omega) (by simp; omega)
+
+/-- non-vacuity: LONG_MIN is a long -/
+example : -(2 ^ 63 : Int) ≤ -9223372036854775808 ∧ (-9223372036854775808 : Int) < 2 ^ 63 := by decide
 
 end ChibiVerif.Props.C02
